@@ -6406,8 +6406,15 @@ impl Nudge {
                 )
             })?
             .years_ranged(balanced.get_years_ranged())
-            .months_ranged(balanced.get_months_ranged())
-            .weeks_ranged(balanced.get_weeks_ranged());
+            .months_ranged(balanced.get_months_ranged());
+        // N.B. `balanced_nanos` includes the weeks of `balanced`. When weeks
+        // are the largest unit, then the conversion above has already put
+        // them (including any carry from rounding) back into the span.
+        let span = if largest == Unit::Week {
+            span
+        } else {
+            span.weeks_ranged(balanced.get_weeks_ranged())
+        };
 
         let diff_nanos = rounded_nanos - balanced_nanos;
         let diff_days = rounded_nanos.div_ceil(t::NANOS_PER_CIVIL_DAY)
